@@ -205,6 +205,8 @@ class Cache:
             res.derived_from = self.derived_from | right_cache.derived_from
             res.limit = None
             res.group_by = set()
+            # the union is a query of its own, the WHERE clauses are those of the operands
+            res.is_filtered = False
 
         elif isinstance(node, verbs.SubqueryMarker):
             res.cols = {
